@@ -2,6 +2,8 @@
 import hashlib
 
 ORACLES = {
+    "C10": {"valid_holder_accepted", "nonrevoc_enforced", "honest_proof_verifies"},
+    "C07": {"valid_holder_accepted", "honest_proof_verifies"},
     "C01": {"honest_proof_verifies", "revealed_values_equal", "prover_builds_true", "prover_no_panic", "other_nonce_rejected"},
     "C02": {"altered_proof_rejected", "honest_proof_verifies", "forgery_rejected"},
     "C03": {"prover_builds_true", "prover_refuses_false", "prover_no_panic", "honest_proof_verifies",
@@ -33,6 +35,7 @@ def verdict(x):
 def finish_transcript(model, mat, impl):
     """model returned a transcript with pairing-side items: materialise and hash (python hashlib)"""
     parts = []
+    pending = False
     for it in model["transcript"]:
         if "bytes" in it:
             parts.append(bytes.fromhex(it["bytes"]))
@@ -40,10 +43,13 @@ def finish_transcript(model, mat, impl):
             kind, exp = next(iter(it.items()))
             b = mat.group(kind, exp)
             if b is None:
-                return None
+                pending = True
+                continue
             if b == "materialise-error":
                 return {"status": "err"}
             parts.append(bytes.fromhex(b))
+    if pending:
+        return None
     h = int.from_bytes(hashlib.sha256(b"".join(parts)).digest(), "big")
     return {"status": "ok", "valid": str(h) == model["c_hash"]}
 
@@ -56,6 +62,20 @@ def cmp_verify(prop, case, model, mat, F, variant, final):
         if final:
             F.mismatch("driver", "model driver failed on %s: %s" % (case["id"], (model or {}).get("error")), case, variant)
         return False
+    # the model's exponents of c-list / accumulator / registry key against the wire values
+    for chk in model.get("nr_checks", []) or []:
+        items = chk if isinstance(chk, list) else [chk]
+        for it in items:
+            if "error" in it:
+                if final:
+                    F.mismatch("nr_ctx", "%s: model could not read the non-revocation context: %s" % (case["id"], it["error"]), case, variant)
+                continue
+            if it.get("expect") in (None, ""):
+                continue
+            got = mat.group(it["group"], it["exp"])
+            if final and got != it["expect"] and case.get("class", {}).get("kind") not in ("transplanted_non_revocation_part",):
+                F.mismatch("nr_element", "%s: %s: model exponent materialises to %s..., implementation has %s..." %
+                           (case["id"], it["what"], str(got)[:16], str(it["expect"])[:16]), case, variant)
     if "transcript" in model:
         model = finish_transcript(model, mat, impl)
         if model is None:
